@@ -223,7 +223,7 @@ def random_schedule(rng, front, n_events, weights=None, junk=None, verdicts=None
     w = dict(Express=5, RecvData=6, ValFinish=6, Time=6, Cancel=1, Shutdown=0.2, Connect=3, RecvNack=2, RecvJunk=1, Await=3)
     if weights:
         w.update(weights)
-    verdicts = verdicts or (['PASS', 'PASS', 'FAIL', 'TIMEOUT', 'SILENCE', 'BYPASS', 'RAISE'] if front == 'v2' else ['T', 'T', 'F'])
+    verdicts = verdicts or (['PASS', 'PASS', 'PASS', 'FAIL', 'TIMEOUT', 'SILENCE', 'BYPASS', 'RAISE', 'NONE', 'FALSEV'] if front == 'v2' else ['T', 'T', 'F'])
     run = pitkit.PitRun(front)
     evs = []
     entries = []     # dict(t, dl)
